@@ -150,6 +150,19 @@ func c10Expr(fset *token.FileSet, e ast.Expr, env c10Env) (string, error) {
 		if t, ok := env[key]; ok {
 			return t, nil
 		}
+		if id, ok := x.Fun.(*ast.Ident); ok {
+			if fn, ok := env["fn:"+id.Name]; ok {
+				parts := []string{fn}
+				for _, a := range x.Args {
+					t, err := c10Expr(fset, a, env)
+					if err != nil {
+						return "", err
+					}
+					parts = append(parts, t)
+				}
+				return "(" + strings.Join(parts, " ") + ")", nil
+			}
+		}
 		return "", c10err(fset, e, "call %s has no integer meaning here", key)
 	}
 	return "", c10err(fset, e, "unsupported expression %T", e)
@@ -1107,10 +1120,5 @@ func c10Mesh(fset *token.FileSet, o *c10Out, path string) error {
 	}
 	o.p("]")
 	o.p("")
-	return nil
-}
-
-// c10Canvas: block-range facts of marching/canvas.go (filled in below).
-func c10Canvas(fset *token.FileSet, o *c10Out, path string) error {
 	return nil
 }
